@@ -1,4 +1,5 @@
 import itertools
+import logging
 from dataclasses import dataclass
 from typing import Callable, Dict, List, Optional, Sequence, Set, Tuple
 
@@ -135,11 +136,25 @@ class _Inline(_InternalNode):
             for i, var in zip(self.model.graph.input, self.inputs.inputs)
         }
         output_feed = run(self.model, input_feed)
-        return {
-            f"outputs_{k}": unwrap_feed(var.unwrap_type(), output_feed[o.name]).value
-            for k, (o, var) in enumerate(zip(self.graph.output, self.outputs.outputs))
-            if o.name in output_feed
-        }
+        try:
+            return {
+                f"outputs_{k}": unwrap_feed(
+                    var.unwrap_type(), output_feed[o.name]
+                ).value
+                for k, (o, var) in enumerate(
+                    zip(self.graph.output, self.outputs.outputs)
+                )
+                if o.name in output_feed
+            }
+        except Exception as e:
+            # A result that cannot be converted is a failure of the backend.
+            if _value_prop.VALUE_PROP_STRICT_CHECK:
+                raise
+            logging.debug(
+                f"Value propagation in {self.model} gave an unusable result - "
+                f"{type(e).__name__}: {e}"
+            )
+            return {}
 
     def to_onnx(
         self, scope: Scope, doc_string: Optional[str] = None, build_subgraph=None
